@@ -409,7 +409,7 @@ func c17Gen(mode string, depth int, o c17GenOpts, prefix []string, yield func(c1
 
 func TestVerif_C17(t *testing.T) {
 	vx.Run(t, "C17", func(c *vx.Ctx) {
-		depth := vx.Pick(c, 6, 7)
+		depth := vx.Pick(c, 6, 8)
 		c.Rule(fmt.Sprintf("every statically legal sequence of 1..%d events (shortest first) over {Q new request (<=%d), C_i cancel request i, S<conn><k> server SETTINGS with MAX_CONCURRENT_STREAMS k in {0,1,2} or without the field (<=2 per connection), E<conn><j> response with END_STREAM on the j-th stream of the connection, R<conn><j> RST_STREAM(CANCEL), F<conn><j> RST_STREAM(REFUSED_STREAM) (thorough), P<conn> acknowledge the client's PINGs}, in mode strict (Transport.StrictMaxConcurrentStreams, one connection) and mode pool (default Transport, two connections addressable), plus seeded prefixes; each case runs a fresh real Transport in its own synctest bubble whose dialled connections end in the harness; at the end of every case 120 s of fake time pass (every retry back-off of the Transport expires) and the clauses are evaluated again; a case is non-trivial when all its events were applicable at run time", depth, vx.Pick(c, 3, 4)))
 		c.Assume("limit in force for a new stream = the larger of the MAX_CONCURRENT_STREAMS values delivered before and during the step in which its HEADERS is observed (no limit before the first SETTINGS); a stream is open on the wire from its HEADERS until END_STREAM both ways or RST_STREAM either way")
 		c.Assume("a pending request that is not woken when the server RAISES the limit by SETTINGS (ClientConn.processSettings does not broadcast) is not reported: the property only states that excess requests wait; the waiter clause fires only when the step itself released a slot (stream closed, request cancelled, PING acknowledged)")
